@@ -1577,6 +1577,12 @@ static int init_tables(void)
 	signed int i,x;
 	signed int n;
 	double o,m;
+	/* The tables are shared by all chips: build them only once (done at load
+	   time below, so chips created on different threads never write them) */
+	static int tables_ready = 0;
+	if (tables_ready)
+		return 1;
+	tables_ready = 1;
 
 	for (x=0; x<TL_RES_LEN; x++)
 	{
@@ -1686,6 +1692,7 @@ static int init_tables(void)
 	return 1;
 
 }
+
 
 
 
@@ -2684,6 +2691,11 @@ CONSTEXPR int steps[49] =
 void Init_ADPCMATable()
 {
 	int step, nib;
+	/* constant table shared by all chips: built once (at load time, see below) */
+	static int table_ready = 0;
+	if (table_ready)
+		return;
+	table_ready = 1;
 
 	for (step = 0; step < 49; step++)
 	{
@@ -2715,6 +2727,12 @@ void FMsave_state_adpcma(device_t *device,ADPCM_CH *adpcm)
 }
 #endif /* MAME_EMU_SAVE_H */
 } // anonymous namespace
+
+/* Build the tables shared by all chips at load time, before threads can race on them */
+static struct FMTablesInit
+{
+	FMTablesInit() { init_tables(); Init_ADPCMATable(); }
+} s_fmTablesInit;
 
 #endif /* (BUILD_YM2608||BUILD_YM2610||BUILD_YM2610B) */
 
